@@ -204,3 +204,17 @@ Proof.
   intros Hz Hm s W G. unfold new_adder, bind, target_gmw. rewrite G.
   apply (okm_ripple_adder false x y z Hz Hm s W G).
 Qed.
+
+(* Aliased operands: the builder theorems quantify over arbitrary lists of wire
+   ids, so the same vector (or overlapping vectors) may be passed for x and y.
+   Instance x = y: t + t = 2t. *)
+Corollary okm_new_adder_same_operand (x z : list wire) :
+  (1 <= length z)%nat -> (1 <= length x)%nat ->
+  okm false (new_adder x x z)
+      (fun z' e => length z' = length z /\
+                   valN e z' = (2 * valN e x) mod 2 ^ N.of_nat (length z)).
+Proof.
+  intros Hz Hx. eapply okm_weaken.
+  - apply okm_new_adder_yao; [exact Hz|]. rewrite Nat.max_id. exact Hx.
+  - cbv beta. intros z' e [H1 H2]. split; [exact H1|]. rewrite H2. f_equal. lia.
+Qed.
